@@ -9,7 +9,8 @@
 #     4 MetaResult rid res         res: 0 ok, 100+k
 #     5 JoinReply rid res gen member leader   res 0 ok / 100+k; leader: 0 follower 1 leader 2 leader+members without subscriptions
 #     6 PartsResult rid res        res: 0 ok, 1 ok but a topic is missing, 100+k
-#     7 SyncReply rid res n t1 p1 .. tn pn   res: 0 ok, 1 ok but undecodable (non-Kafka exception), 2 undecodable (ProtocolError), 100+k
+#     7 SyncReply rid res n t1 p1 .. tn pn   res: 0 ok, 1 ok but undecodable (non-Kafka exception), 2 undecodable (ProtocolError), 100+k,
+#                                            10+j ok, but the Consumer constructor raises for the (j+1)-th consumer on_join_complete builds
 #     8 HeartbeatTick              9 HeartbeatReply rid res (0 ok / 100+k)
 #    10 FireJoinTimer id          11 LeaveReply rid res (0 ok / 100+k)
 #    12 ConsumerStartFails cid k  13 ConsumerShutdownDone cid res (0 ok / 1 fail)
@@ -130,7 +131,8 @@ def pretty_event(ev):
         return "%s(rid=%d, %s)" % (n, ev[1], ("fail " + KIND_NAMES[r - 100]) if r >= 100 else "ok gen=%d member=%d leader=%d" % ev[3:6])
     if ev[0] == E_SYNC:
         r = ev[2]
-        return "%s(rid=%d, %s)" % (n, ev[1], ("fail " + KIND_NAMES[r - 100]) if r >= 100 else "res=%d assignment=%r" % (r, ev[3]))
+        return "%s(rid=%d, %s)" % (n, ev[1], ("fail " + KIND_NAMES[r - 100]) if r >= 100 else
+                                   ("assignment=%r, Consumer constructor raises at #%d" % (ev[3], r - 10)) if r >= 10 else "res=%d assignment=%r" % (r, ev[3]))
     if ev[0] == E_CFAIL:
         return "%s(cid=%d, %s)" % (n, ev[1], KIND_NAMES[ev[2]] if 0 <= ev[2] < NKINDS else ev[2])
     if ev[0] == E_CSHUT:
@@ -251,6 +253,11 @@ def make_stub_consumer(rec):
 
         def __init__(self, client, topic, partition, processor, consumer_group=None, commit_consumer_id=None,
                      commit_generation_id=None, **kw):
+            if rec.ctor_raise_at is not None:          # driver: `Consumer(...)` raises for the (j+1)-th consumer of this sync (bad consumer_kwargs)
+                if rec.ctor_count == rec.ctor_raise_at:
+                    rec.ctor_raise_at = None
+                    raise TypeError("__init__() got an unexpected keyword argument 'auto_comit_every_n'")
+                rec.ctor_count += 1
             self.cid = len(rec.consumers)
             rec.consumers.append(self)
             self.topic, self.partition = topic, partition
@@ -381,6 +388,7 @@ class Impl(object):
         self.problems = []         # things outside the canonical alphabet (reported, never silently dropped)
         self.nstart = 0
         self.nstop = 0
+        self.ctor_raise_at, self.ctor_count = None, 0
         self.sync_start_failures = []   # driver: failure kinds (or None) for the next consumers' start() calls - outside the model's alphabet
         self.sync_failed = []
         self.start_fired = []      # per start() call: has its Deferred fired?
@@ -420,9 +428,10 @@ class Impl(object):
     def timer_created(self, dc, delay, f):
         h = float.hex(float(delay))
         dk = self.delay_hex.index(h) if h in self.delay_hex else -1
-        if dk < 0:
+        foreign_ok = getattr(self, "allow_foreign_timers", False)      # real partition Consumers (group_wire_lib) arm their own calls
+        if dk < 0 and not foreign_ok:
             self.problems.append("callLater delay %r is none of the documented delays" % (delay,))
-        if isinstance(f, LoopingCall):
+        if isinstance(f, LoopingCall) and (getattr(f.f, "__self__", None) is self.obj or not foreign_ok):
             dc.v_class, dc.v_id = 1, 0
             self.hb_calls.append(dc)
         elif getattr(f, "__name__", "") == "join_and_sync" and getattr(f, "__self__", None) is self.obj:
@@ -430,7 +439,8 @@ class Impl(object):
             self.join_timers.append(dc)
         else:
             dc.v_class, dc.v_id = 2, 0
-            self.problems.append("callLater of unexpected callable %r" % (f,))
+            if not foreign_ok:
+                self.problems.append("callLater of unexpected callable %r" % (f,))
         self.out(O_SCHED, dc.v_class, dk, dc.v_id)
 
     def timer_cancelled(self, dc):
@@ -531,7 +541,7 @@ class Impl(object):
                     self._fire(r, ev[2], tp)
             elif c == E_SYNC:
                 r = self._req(ev[1], "sync")
-                if r and (ev[2] in (0, 1, 2) or ev[2] >= 100) and all(0 <= t < 1000 and 0 <= p < 2 ** 31 for t, p in ev[3]):
+                if r and (ev[2] in (0, 1, 2) or ev[2] >= 10) and all(0 <= t < 1000 and 0 <= p < 2 ** 31 for t, p in ev[3]):
                     asg = {}
                     for t, p in ev[3]:
                         asg.setdefault("t%d" % t, []).append(p)
@@ -540,7 +550,12 @@ class Impl(object):
                         data = b"\x00\x00\x00\x00\x00\x01\x00\x02\xff\xfe\x00\x00\x00\x00\xff\xff\xff\xff"   # non-ascii topic
                     elif ev[2] == 2:
                         data = b"\x00\x01" + data[2:]   # unsupported version -> ProtocolError (a KafkaError)
-                    self._fire(r, ev[2], _SyncGroupResponse(0, data))
+                    if 10 <= ev[2] < 100:
+                        self.ctor_raise_at, self.ctor_count = ev[2] - 10, 0
+                        self._fire(r, 0, _SyncGroupResponse(0, data))
+                        self.ctor_raise_at = None
+                    else:
+                        self._fire(r, ev[2], _SyncGroupResponse(0, data))
             elif c == E_TICK:
                 live = [dc for dc in self.hb_calls if dc.active()]
                 if live:
@@ -654,7 +669,7 @@ def valid_event(ev):
     if c == E_JOIN:
         return ev[3] >= 0 and ev[4] >= 0 and 0 <= ev[5] <= 2 and okres(ev[2])
     if c == E_SYNC:
-        return okres(ev[2], (0, 1, 2)) and all(0 <= t < 1000 and 0 <= p < 2 ** 31 for t, p in ev[3])
+        return (okres(ev[2], (0, 1, 2)) or 10 <= ev[2] < 100) and all(0 <= t < 1000 and 0 <= p < 2 ** 31 for t, p in ev[3])
     if c == E_CFAIL:
         return 0 <= ev[2] < NKINDS
     if c == E_CSHUT:
@@ -773,7 +788,8 @@ def gen_history(rnd, prof=None, hook=None):
                     ev = (E_PARTS, rid, fr if fail else (1 if rnd.random() < 0.05 else 0))
                 elif kind == "sync":
                     last_asg = gen_assignment(rnd, last_asg)
-                    ev = (E_SYNC, rid, fr if fail else (rnd.choice([1, 2]) if rnd.random() < 0.04 else 0), list(last_asg))
+                    ok_res = rnd.choice([1, 2]) if rnd.random() < 0.04 else (10 + rnd.randint(0, max(len(last_asg), 1)) if rnd.random() < 0.03 else 0)
+                    ev = (E_SYNC, rid, fr if fail else ok_res, list(last_asg))
                 elif kind == "hb":
                     ev = (E_HBREPLY, rid, fr)
                 else:
@@ -898,6 +914,8 @@ def corpus_cases():
         out.append((1, [(E_START,), (E_LOOKUP, 0, 0), (E_META, 1, 100 + K_OTHERKAFKA), (E_FIRE, 0), (E_LOOKUP, 2, 0), (E_META, 3, 0)], (cls - 1) % 9))
         out.append((1, [(E_START,), (E_LOOKUP, 0, 0), (E_META, 1, 0), (E_JOIN, 2, 0, 1, 1, 1), (E_PARTS, 3, 100 + K_OTHERKAFKA), (E_FIRE, 0)], (cls - 3) % 9))
     out.append((0, [(E_START,), (E_LOOKUP, 0, 0), (E_META, 1, 100 + K_TIMEOUT), (E_FIRE, 0)], 0))
+    out.append((1, [(E_START,), (E_LOOKUP, 0, 0), (E_META, 1, 0), (E_JOIN, 2, 0, 5, 7, 0), (E_SYNC, 3, 11, [(0, 0), (0, 1), (1, 0)]), (E_TICK,),
+                    (E_HBREPLY, 4, 0)], 0))      # F-C17-2, second face: a Consumer constructor raises
     return out
 
 
